@@ -50,10 +50,10 @@ def PosLE (p q : Nat × α) : Prop := p.1 < q.1 ∨ (p.1 = q.1 ∧ p.2 ≤ q.2)
     first is the end (`t = 1`) of segment `i` and the second lies on segment `i + 1` -/
 def Step (p q : Nat × α) : Prop := (q.1 = p.1 ∧ p.2 ≤ q.2) ∨ (q.1 = p.1 + 1 ∧ p.2 = 1)
 
-/-- the per-segment result of the inner loop: the accepted sub-segment `(a', b')` of the input segment
-    `s`, or nothing -/
+/-- the per-segment result of the inner loop (the model's loop, started as `lineStep` starts it): the
+    accepted sub-segment `(a', b')` of the input segment `s`, or nothing -/
 def clipSeg (box : Bound α) (isOpen : Bool) (s : Pt α × Pt α) : Option (Pt α × Pt α) :=
-  match segLoop box 8 s.1 s.2 (code box isOpen s.1) (code box isOpen s.2) with
+  match segLoop box isOpen 8 s.1 s.2 (code box isOpen s.1) (code box isOpen s.2) 0 0 with
   | .accept a' b' _ => some (a', b')
   | _ => none
 
@@ -170,15 +170,15 @@ theorem at_new (pre : List (Pt α)) (a b : Pt α) {t : α} (h0 : 0 ≤ t) (h1 : 
     and an end whose code is already zero is not moved (as a parameter, not only as a point) -/
 theorem segLoop_param {box : Bound α} (hb : BoxOK box) (a b : Pt α) :
     ∀ (fuel : Nat) (s e : α) (cA cB : Nat), s ≤ e → W box cA (lerp a b s) → W box cB (lerp a b e) →
-      ∀ a' b' c, segLoop box fuel (lerp a b s) (lerp a b e) cA cB = .accept a' b' c →
+      ∀ a' b' c, segLoopU box fuel (lerp a b s) (lerp a b e) cA cB = .accept a' b' c →
       ∃ s' e', s ≤ s' ∧ s' ≤ e' ∧ e' ≤ e ∧ a' = lerp a b s' ∧ b' = lerp a b e' ∧
         (cA = 0 → s' = s) ∧ (cB = 0 → e' = e) := by
   intro fuel
   induction fuel with
-  | zero => intro s e cA cB _ _ _ a' b' c h; simp [segLoop] at h
+  | zero => intro s e cA cB _ _ _ a' b' c h; simp [segLoopU] at h
   | succ n ih =>
     intro s e cA cB hse hWA hWB a' b' c h
-    rw [segLoop] at h
+    rw [segLoopU] at h
     split_ifs at h with h1 h2 h3
     · cases h
       exact ⟨s, e, le_refl _, hse, le_refl _, rfl, rfl, fun _ => rfl, fun _ => rfl⟩
@@ -203,15 +203,15 @@ theorem segLoop_param {box : Bound α} (hb : BoxOK box) (a b : Pt α) :
 
 /-- what the inner loop does on an input segment, as the outer loop calls it -/
 theorem segLoop_cases {box : Bound α} (hb : BoxOK box) (isOpen : Bool) (a b : Pt α) :
-    (segLoop box 8 a b (code box isOpen a) (code box isOpen b) = .reject ∧ code box isOpen a ≠ 0) ∨
+    (segLoopU box 8 a b (code box isOpen a) (code box isOpen b) = .reject ∧ code box isOpen a ≠ 0) ∨
     ∃ s e, 0 ≤ s ∧ s ≤ e ∧ e ≤ 1 ∧
-      segLoop box 8 a b (code box isOpen a) (code box isOpen b) = .accept (lerp a b s) (lerp a b e) 0 ∧
+      segLoopU box 8 a b (code box isOpen a) (code box isOpen b) = .accept (lerp a b s) (lerp a b e) 0 ∧
       (code box isOpen a = 0 → s = 0) ∧ (code box isOpen b = 0 → e = 1) := by
   have hWA := W_code hb isOpen a
   have hWB := W_code hb isOpen b
   have key := segLoop_spec hb (isOpen = false) 8 a b _ _ hWA hWB
     (by intro h; subst h; exact ⟨rfl, rfl⟩) (mu_lt_eight hWA.1 hWB.1)
-  generalize hr : segLoop box 8 a b (code box isOpen a) (code box isOpen b) = r at key
+  generalize hr : segLoopU box 8 a b (code box isOpen a) (code box isOpen b) = r at key
   cases r with
   | stuck => exact key.elim
   | reject => exact Or.inl ⟨rfl, key.1⟩
@@ -349,15 +349,22 @@ def ReprA (st : LineSt α) (pre : List (Pt α)) (a : Pt α) (Wl : List (List ((N
      ∃ cur i, st.out = unann done ++ [cur.map Prod.snd] ∧ st.codeA = 0 ∧ i + 1 = pre.length ∧
        Wl = done ++ [cur ++ [((i, 1), a)]])
 
-theorem clipSeg_of_accept {box : Bound α} {isOpen : Bool} {a b a' b' : Pt α} {c : Nat}
-    (h : segLoop box 8 a b (code box isOpen a) (code box isOpen b) = .accept a' b' c) :
-    clipSeg box isOpen (a, b) = some (a', b') := by
-  unfold clipSeg; simp only; rw [h]
+/-- over an ordered field the inner loop is the loop without the rounding guards -/
+theorem segLoop_code_eq {box : Bound α} (hb : BoxOK box) (isOpen : Bool) (a b : Pt α) :
+    segLoop box isOpen 8 a b (code box isOpen a) (code box isOpen b) 0 0 =
+      segLoopU box 8 a b (code box isOpen a) (code box isOpen b) :=
+  segLoop_eq_segLoopU hb isOpen (W_code hb isOpen a) (W_code hb isOpen b) (bitCount_code_le box isOpen a)
+    (bitCount_code_le box isOpen b) (fun ho => by subst ho; exact ⟨rfl, rfl⟩) 8
 
-theorem clipSeg_of_reject {box : Bound α} {isOpen : Bool} {a b : Pt α}
-    (h : segLoop box 8 a b (code box isOpen a) (code box isOpen b) = .reject) :
+theorem clipSeg_of_accept {box : Bound α} (hb : BoxOK box) {isOpen : Bool} {a b a' b' : Pt α} {c : Nat}
+    (h : segLoopU box 8 a b (code box isOpen a) (code box isOpen b) = .accept a' b' c) :
+    clipSeg box isOpen (a, b) = some (a', b') := by
+  unfold clipSeg; simp only; rw [segLoop_code_eq hb, h]
+
+theorem clipSeg_of_reject {box : Bound α} (hb : BoxOK box) {isOpen : Bool} {a b : Pt α}
+    (h : segLoopU box 8 a b (code box isOpen a) (code box isOpen b) = .reject) :
     clipSeg box isOpen (a, b) = none := by
-  unfold clipSeg; simp only; rw [h]
+  unfold clipSeg; simp only; rw [segLoop_code_eq hb, h]
 
 theorem lineStep_ord {box : Bound α} (hb : BoxOK box) (isOpen : Bool) (pre : List (Pt α)) (a b : Pt α)
     (st : LineSt α) (Wl : List (List ((Nat × α) × Pt α))) (hcode : st.codeA = code box isOpen a)
@@ -366,12 +373,13 @@ theorem lineStep_ord {box : Bound α} (hb : BoxOK box) (isOpen : Bool) (pre : Li
     ∃ Wl', Ann box isOpen (pre ++ [a, b]) Wl' ∧
       (last = true → (lineStep box isOpen st a b last).out = unann Wl') ∧
       (last = false → ReprA (lineStep box isOpen st a b last) (pre ++ [a]) b Wl') := by
+  rw [lineStep_eq_U hb isOpen b last hcode]
   rcases segLoop_cases hb isOpen a b with ⟨hr, hne⟩ | ⟨s, e, h0, hse, h1, hr, hs0, he1⟩
   · -- rejected
     have hr' := hr
     rw [← hcode] at hr'
     rw [lineStep_reject last hr']
-    refine ⟨rfl, Wl, ann_reject hA (clipSeg_of_reject hr), ?_, ?_⟩
+    refine ⟨rfl, Wl, ann_reject hA (clipSeg_of_reject hb hr), ?_, ?_⟩
     · intro _
       obtain ⟨done, _, h | ⟨cur, i, _, hz, _⟩⟩ := hR
       · show st.out = unann Wl
@@ -384,7 +392,7 @@ theorem lineStep_ord {box : Bound α} (hb : BoxOK box) (isOpen : Bool) (pre : Li
   · -- accepted: the sub-segment `[s, e]`
     have hr' := hr
     rw [← hcode] at hr'
-    have hcs := clipSeg_of_accept hr
+    have hcs := clipSeg_of_accept hb hr
     obtain ⟨done, hl, ⟨ho, hV⟩ | ⟨cur, i, ho, hz, hi, hV⟩⟩ := hR
     · -- no open piece: a new piece starts
       subst hV
@@ -544,13 +552,13 @@ theorem clipSeg_closed_spec {box : Bound α} (hb : BoxOK box) (a b : Pt α) :
      | none => ∀ t, 0 ≤ t → t ≤ 1 → ¬ InBox box (lerp a b t)) := by
   have hcl := segLoop_closed hb a b
   rcases segLoop_cases hb false a b with ⟨hr, _⟩ | ⟨s, e, h0, hse, h1, hr, hs0, he1⟩
-  · rw [clipSeg_of_reject hr]
-    have hr2 : segLoop box 8 a b (bitCode box a) (bitCode box b) = .reject := hr
+  · rw [clipSeg_of_reject hb hr]
+    have hr2 : segLoopU box 8 a b (bitCode box a) (bitCode box b) = .reject := hr
     rw [hr2] at hcl
     intro t ht0 ht1
     exact hcl _ (onSeg_lerp a b ht0 ht1)
-  · rw [clipSeg_of_accept hr]
-    have hr2 : segLoop box 8 a b (bitCode box a) (bitCode box b) =
+  · rw [clipSeg_of_accept hb hr]
+    have hr2 : segLoopU box 8 a b (bitCode box a) (bitCode box b) =
         .accept (lerp a b s) (lerp a b e) 0 := hr
     rw [hr2] at hcl
     obtain ⟨hia, _, _, _, hiff⟩ := hcl
